@@ -674,6 +674,18 @@ def check_update_protocol(ck, R):
     ok_r = ok_r and all(x is not None and A.norm(x.test) == "register_fn" for x in g2)
     ck.ob(R, ini.key(None, "registration-bumps"), ok_r, "defining a function bumps the generation before it is registered" if ok_r else
           "a newly defined function does not bump the global generation: other functions keep versions computed before it existed", ini.where())
+    uf = FA(ck, MF + "._update_fn_reference")
+    fr = uf.calls("FunctionReference")
+    okf = len(fr) == 1 and A.norm(A.kwarg(fr[0], "version")) == "self.version()" and A.norm(A.kwarg(fr[0], "cluster_name")) == "self.cluster_name" \
+        and A.norm(A.kwarg(fr[0], "partial_args")) == "self.partial_args" and A.norm(A.kwarg(fr[0], "partial_kwargs")) == "self.partial_kwargs" \
+        and any(A.dotted(t) == "self._fn_reference" for s_ in uf.stmts(ast.Assign) for t in s_.targets)
+    ck.ob(R, uf.key(None, "reference-from-current-version"), okf, "the reference is rebuilt with the current version and the partials" if okf else
+          "_update_fn_reference does not rebuild FunctionReference(self, cluster, version=self.version(), partials)", uf.where())
+    vv = FA(ck, MF + ".version")
+    okv = any(A.call_attr(c) == "_update_dependencies" for c in vv.calls()) and any(A.norm(r.value) == "self._calculated_version" for r in vv.returns()) \
+        and all(vv.cfg.must_pass(vv.nodes_all(vv.calls("_update_dependencies")), i) for r in vv.returns() if A.norm(r.value) == "self._calculated_version" for i in vv.nodes(r))
+    ck.ob(R, vv.key(None, "version-refreshes"), okv, "version() refreshes before answering the calculated version" if okv else
+          "version() can answer the calculated version without refreshing dependencies", vv.where())
     ig = FA(ck, MF + ".increment_global_fn_generation")
     oki = any(isinstance(s, ast.AugAssign) and isinstance(s.op, ast.Add) and A.norm(s.target).endswith("_global_fn_generation") and A.norm(s.value) == "1" for s in ig.stmts(ast.AugAssign))
     ck.ob(R, ig.key(None, "monotone"), oki, "the generation only grows" if oki else "increment_global_fn_generation does not add 1", ig.where())
